@@ -87,4 +87,28 @@ AlgoValue(t) ==
       s == ad[2]
       neg == s[1] = cMinus
   IN WMk(IF neg THEN -1 ELSE 1, DigitsToNat(SelectSeq(s, IsDigitC)), ZSub(ZOfInt(ad[3]), ExpValue(ExpOf(t))))
+
+\* ---------------------------------------------------------------- JSON numbers (RFC 8259):  -? (0 | [1-9][0-9]*) (. [0-9]+)? ([eE] [+-]? [0-9]+)?
+IsJsonNumber(t) ==
+  LET k0 == IF t # <<>> /\ t[1] = cMinus THEN 1 ELSE 0
+      rest == SubSeq(t, k0 + 1, Len(t))
+      ep == EPos(rest)
+      mant == IF ep = 0 THEN rest ELSE SubSeq(rest, 1, ep - 1)
+      ex == IF ep = 0 THEN <<>> ELSE SubSeq(rest, ep + 1, Len(rest))
+      dp == FirstIdx(mant, LAMBDA c : c = cDot)
+      ip == IF dp = 0 THEN mant ELSE SubSeq(mant, 1, dp - 1)
+      fp == IF dp = 0 THEN <<>> ELSE SubSeq(mant, dp + 1, Len(mant))
+  IN /\ ip # <<>> /\ AllC(ip, IsDigitC) /\ (Len(ip) = 1 \/ ip[1] # c0)
+     /\ (dp # 0 => fp # <<>> /\ AllC(fp, IsDigitC))
+     /\ (ep # 0 => ExpWellFormed(ex))
+cQuote == 34
+\* JSON insignificant whitespace around a value (space, tab, LF, CR)
+IsWsC(c) == c = 32 \/ c = 9 \/ c = 10 \/ c = 13
+TrimWs(t) == LET i == FirstIdx(t, LAMBDA c : ~IsWsC(c))
+                 j == SelectLastInSeq(t, LAMBDA c : ~IsWsC(c))
+             IN IF i = 0 THEN <<>> ELSE SubSeq(t, i, j)
+\* "...." without quotes, backslashes or control characters inside
+IsPlainJsonString(t) == /\ Len(t) >= 2 /\ t[1] = cQuote /\ t[Len(t)] = cQuote
+                        /\ AllC(SubSeq(t, 2, Len(t) - 1), LAMBDA c : c # cQuote /\ c # 92 /\ c >= 32)
+Unquote(t) == SubSeq(t, 2, Len(t) - 1)
 =============================================================================
